@@ -99,8 +99,32 @@ class Prop(SeqProp):
     def mk(self, kind, steps, label=""):
         """steps: (op, args) with numeric args as pool indices (ints), 'fN' foreign probes, map values as ints"""
         ops, impl = [], []
+        SETOPS = ("le", "eq", "disjoint", "and", "or", "sub", "xor", "ior", "iand", "isub", "ixor")
         for op, args in steps:
-            if kind == "sset" or op in ("get", "has", "del", "pop"):
+            if kind == "sset" and op in SETOPS:
+                # the other operand is a builtin set: equal values (1 and 1.0) are one element
+                seen, la = set(), []
+                for a in args:
+                    r = rk(POOL[a])
+                    if r not in seen:
+                        seen.add(r); la.append(str(r))
+                ops.append(" ".join([op] + la))
+            elif kind == "smap" and op in ("getd", "popd"):
+                ops.append(f"{op} {'f' if isinstance(args[0], str) else rk(POOL[args[0]])} {args[1]}")
+            elif kind == "smap" and op == "haskey":
+                ops.append(f"haskey {'f' if isinstance(args[0], str) else rk(POOL[args[0]])}")
+            elif kind == "smap" and op == "hasitem":
+                ops.append(f"hasitem {'f' if isinstance(args[0], str) else rk(POOL[args[0]])} {args[1]}")
+            elif kind == "smap" and op == "hasvalue":
+                ops.append(f"hasvalue {args[0]}")
+            elif kind == "smap" and op == "eq":
+                d = {}
+                for j in range(0, len(args), 2):
+                    d[rk(POOL[args[j]])] = args[j + 1]
+                ops.append(" ".join(["eq"] + [f"{k} {v}" for k, v in d.items()]))
+            elif kind == "smap" and op == "clear":
+                ops.append("clear")
+            elif kind == "sset" or op in ("get", "has", "del", "pop"):
                 la = []
                 for a in args:
                     la.append("f" if isinstance(a, str) else str(rk(POOL[a])))
@@ -155,8 +179,12 @@ class Prop(SeqProp):
                         steps.append(("pop", []))
                     elif r < 0.9:
                         steps.append(("has", [probe]))
-                    elif r < 0.97:
+                    elif r < 0.94:
                         steps.append(("len", []))
+                    elif r < 0.985:
+                        # the inherited Set / MutableSet interface (Model/SortedMixins.lean)
+                        other = [pick() for _ in range(rng.randint(0, 5))]
+                        steps.append((rng.choice(["le", "eq", "disjoint", "and", "or", "sub", "xor", "ior", "iand", "isub", "ixor"]), other))
                     else:
                         steps.append(("clear", []))
                 else:
@@ -181,8 +209,30 @@ class Prop(SeqProp):
                         steps.append(("get", [probe]))
                     elif r < 0.93:
                         steps.append(("has", [probe]))
-                    elif r < 0.97:
+                    elif r < 0.94:
                         steps.append(("items", []))
+                    elif r < 0.99:
+                        # the inherited Mapping / MutableMapping interface (Model/SortedMixins.lean); values that are compared
+                        # are never code 1 (the int 0) or code 3 (False): these two are equal in Python but different values of the model
+                        val = lambda: rng.choice([0, 2, vc, vc - 1, 100 + rng.randint(1, 8)])
+                        q = rng.random()
+                        if q < 0.2:
+                            steps.append(("getd", [probe, val()]))
+                        elif q < 0.4:
+                            steps.append(("popd", [probe, val()]))
+                        elif q < 0.5:
+                            steps.append(("haskey", [probe]))
+                        elif q < 0.65:
+                            steps.append(("hasitem", [probe, val()]))
+                        elif q < 0.8:
+                            steps.append(("hasvalue", [val()]))
+                        elif q < 0.95:
+                            pairs = []
+                            for j in range(rng.randint(0, 4)):
+                                pairs += [pick(), val()]
+                            steps.append(("eq", pairs))
+                        else:
+                            steps.append(("clear", []))
                     else:
                         steps.append(("len", []))
             c = self.mk(kind, steps)
@@ -275,6 +325,9 @@ class Prop(SeqProp):
                     shadow.discard(next((x for x in shadow if r_of(x) == r[4:]), None))
                 elif op == "clear":
                     shadow = set()
+                elif op in ("ior", "iand", "isub", "ixor"):
+                    other = set(v)
+                    shadow = {"ior": shadow | other, "iand": shadow & other, "isub": shadow - other, "ixor": shadow ^ other}[op]
             else:
                 key = lambda j: self.val(args[j])
                 if op == "init":
@@ -283,8 +336,10 @@ class Prop(SeqProp):
                         shadow[key(j)] = pyv(args[j + 1])
                 elif op == "set" and not isinstance(args[0], str):
                     shadow[key(0)] = pyv(args[1])
-                elif op in ("del", "pop") and not isinstance(args[0], str):
+                elif op in ("del", "pop", "popd") and not isinstance(args[0], str):
                     shadow.pop(key(0), None)
+                elif op == "clear":
+                    shadow = {}
                 elif op == "popitem":
                     kk = next((x for x in shadow if r_of(x) == r[4:].split(":")[0]), None)
                     shadow.pop(kk, None)
@@ -343,6 +398,34 @@ class Prop(SeqProp):
                         r = f"ret {len(obj)}"
                     elif op == "clear":
                         obj.clear(); r = "ok"
+                    elif op in ("le", "eq", "disjoint", "and", "or", "sub", "xor", "ior", "iand", "isub", "ixor"):
+                        other = set()
+                        for a in args:
+                            x = self.val(a)
+                            if not any(frac(x) == frac(y) for y in other):
+                                other.add(x)
+                        if op == "le":
+                            r = f"ret {1 if obj <= other else 0}"
+                        elif op == "eq":
+                            r = f"ret {1 if obj == other else 0}"
+                        elif op == "disjoint":
+                            r = f"ret {1 if obj.isdisjoint(other) else 0}"
+                        elif op in ("and", "or", "sub", "xor"):
+                            res = {"and": lambda: obj & other, "or": lambda: obj | other, "sub": lambda: obj - other,
+                                   "xor": lambda: obj ^ other}[op]()
+                            r = "list " + ",".join(r_of(x) for x in res)
+                            if type(res) is not type(obj):
+                                r += " result-is-not-a-SortedSet"
+                        else:
+                            if op == "ior":
+                                obj |= other
+                            elif op == "iand":
+                                obj &= other
+                            elif op == "isub":
+                                obj -= other
+                            else:
+                                obj ^= other
+                            r = "ok"
                     else:
                         r = "bad-op"
                 else:
@@ -380,6 +463,25 @@ class Prop(SeqProp):
                         r = f"ret {len(obj)}"
                     elif op == "items":
                         r = "ret " + ",".join(f"{r_of(k)}:{codev(v)}" for k, v in obj.items())
+                    elif op == "getd":
+                        r = f"ret {codev(obj.get(self.val(args[0]), pyv(args[1])))}"
+                    elif op == "popd":
+                        r = f"ret {codev(obj.pop(self.val(args[0]), pyv(args[1])))}"
+                    elif op == "haskey":
+                        r = f"ret {1 if self.val(args[0]) in obj.keys() else 0}"
+                    elif op == "hasitem":
+                        r = f"ret {1 if (self.val(args[0]), pyv(args[1])) in obj.items() else 0}"
+                    elif op == "hasvalue":
+                        r = f"ret {1 if pyv(args[0]) in obj.values() else 0}"
+                    elif op == "eq":
+                        other = {}
+                        for j in range(0, len(args), 2):
+                            k = self.val(args[j])
+                            kk = next((y for y in other if frac(y) == frac(k)), k)
+                            other[kk] = pyv(args[j + 1])
+                        r = f"ret {1 if obj == other else 0}"
+                    elif op == "clear":
+                        obj.clear(); r = "ok"
                     else:
                         r = "bad-op"
             except BaseException as e:  # noqa
@@ -415,7 +517,7 @@ class Prop(SeqProp):
         ref = set() if kind == "sset" else {}
         for i, ((op, args), line) in enumerate(zip(case.meta["impl"], impl_out)):
             a = [("f" if isinstance(x, str) else rk(POOL[x])) for x in args] if kind == "sset" or op in ("get", "has", "del", "pop") \
-                else None
+                else ([("f" if isinstance(args[0], str) else rk(POOL[args[0]]))] if op in ("getd", "popd", "haskey", "hasitem") else None)
             exp = "ok"
             if line.startswith("mixin-mismatch "):
                 return f"op {i} {op}: inherited interface: {line[15:].split(' ;; ')[0][:600]}"
@@ -445,6 +547,19 @@ class Prop(SeqProp):
                     exp = f"ret {len(ref)}"
                 elif op == "clear":
                     ref = set()
+                elif op in ("le", "eq", "disjoint", "and", "or", "sub", "xor", "ior", "iand", "isub", "ixor"):
+                    other = set(a)
+                    if op == "le":
+                        exp = f"ret {1 if ref <= other else 0}"
+                    elif op == "eq":
+                        exp = f"ret {1 if ref == other else 0}"
+                    elif op == "disjoint":
+                        exp = f"ret {1 if ref.isdisjoint(other) else 0}"
+                    elif op in ("and", "or", "sub", "xor"):
+                        rs = {"and": ref & other, "or": ref | other, "sub": ref - other, "xor": ref ^ other}[op]
+                        exp = "list " + ",".join(map(str, sorted(rs)))
+                    else:
+                        ref = {"ior": ref | other, "iand": ref & other, "isub": ref - other, "ixor": ref ^ other}[op]
                 res, _, dump = line.rpartition(" L:")
                 try:
                     got = [int(x) for x in dump.split(",")] if dump else []
@@ -495,6 +610,23 @@ class Prop(SeqProp):
                     exp = f"ret {len(ref)}"
                 elif op == "items":
                     exp = "ret " + ",".join(f"{k}:{v}" for k, v in sorted(ref.items()))
+                elif op == "getd":
+                    exp = f"ret {ref[a[0]] if (a[0] != 'f' and a[0] in ref) else args[1]}"
+                elif op == "popd":
+                    exp = f"ret {ref.pop(a[0]) if (a[0] != 'f' and a[0] in ref) else args[1]}"
+                elif op == "haskey":
+                    exp = f"ret {1 if (a[0] != 'f' and a[0] in ref) else 0}"
+                elif op == "hasitem":
+                    exp = f"ret {1 if (a[0] != 'f' and ref.get(a[0], object()) == args[1]) else 0}"
+                elif op == "hasvalue":
+                    exp = f"ret {1 if args[0] in ref.values() else 0}"
+                elif op == "eq":
+                    other = {}
+                    for j in range(0, len(args), 2):
+                        other[kv(j)] = args[j + 1]
+                    exp = f"ret {1 if ref == other else 0}"
+                elif op == "clear":
+                    ref = {}
                 res, _, dump = line.partition(" K:")
                 ks, _, vs = dump.partition(" V:")
                 try:
